@@ -328,3 +328,6 @@ PROPS["C13"]["structural"] += [
 ] + [st("ngram_vectorizer.py", "NgramVectorizer.__add__", "no-alias-mutation")]
 
 PROPS["C10"]["functions"] += ["vectorizers/timed_token_cooccurrence_vectorizer.py::numba_build_skip_grams"]
+
+for _p in ("C03", "C14", "C10"):
+    PROPS[_p]["functions"] += [WK + "variable_window_radii"]
